@@ -35,7 +35,7 @@ def glueStep (A : Arith) (u : Unit) (line : String) : Unit × String :=
   | ["site", id, lb, ub, x] =>
     let r := match id with
       | "101" => Glue.xBound A (pl lb) (pl ub) (pl x)
-      | "102" | "103" | "104" | "107" => Glue.clampSite (pl lb) (pl ub) (pl x)
+      | "102" | "103" | "104" | "107" | "108" => Glue.clampSite (pl lb) (pl ub) (pl x)
       | "105" => Glue.passSite (pl x)
       | "106" => Glue.zip3 Glue.clampTwo (pl lb) (pl ub) (pl x)
       | _ => []
